@@ -214,3 +214,11 @@ Theorem C04_nonlocal_decl_direct : forall sk L f r n,
   resolve_v sk false (L :: f :: r) n = py_lookup_decl DNonlocal (L :: f :: r) n.
 Proof. exact nonlocal_decl_direct. Qed.
 Print Assumptions C04_nonlocal_decl_direct.
+
+(* comprehension targets: every name of the target is local, starred ones included (nested tuples / lists such as `a, ( *b, c)` or
+   `[a, *b]`); a collection that forgets Starred breaks the agreement theorem (computed witness; seeded change C04-m7) *)
+Theorem C04_starred_targets_needed :
+  exists c e, wf_chain c = true /\ no_functions c = true /\ g_names_with tnames_nostar v_fixed c e <> p_names c e
+              /\ g_names v_fixed c e = p_names c e.
+Proof. exact starred_targets_needed. Qed.
+Print Assumptions C04_starred_targets_needed.
